@@ -213,16 +213,18 @@ static void sc_filters(int variant) {
 		for (int pass = 0; pass < 2; pass++) { lzma_ret r = lzma_raw_encoder(&s, pass ? fb_ : fa_); if (r != LZMA_OK) { if (!(r == LZMA_MEM_ERROR && fa_failed)) MISBEHAVE("lzma_raw_encoder returned %d", r); else if (sc_status == 0) sc_status = 1; continue; }
 			lzma_ret c = pump(&s, plain, 2048, 0, LZMA_FINISH); if (c == LZMA_MEM_ERROR && fa_failed) { if (sc_status == 0) sc_status = 1; continue; } if (c != LZMA_STREAM_END) MISBEHAVE("raw encoder returned %d", c); }
 		lzma_end(&s);
-	} else if (variant == 7) {	// single-call buffer functions: nothing may stay allocated, whatever fails
-		static unsigned char cb[4096], db[512]; size_t cp = 0, ip = 0, dp = 0;
-		lzma_ret r = lzma_raw_buffer_encode(ch_three, &FA, plain, 300, cb, &cp, sizeof cb);
-		if (!chk(r, LZMA_OK, LZMA_OK, "lzma_raw_buffer_encode")) { r = lzma_raw_buffer_decode(ch_three, &FA, cb, &ip, cp, db, &dp, sizeof db); if (!chk(r, LZMA_OK, LZMA_OK, "lzma_raw_buffer_decode") && (dp != 300 || memcmp(db, plain, 300))) MISBEHAVE("raw buffer round trip wrong"); }
-		cp = ip = dp = 0; r = lzma_stream_buffer_encode(ch_three, LZMA_CHECK_CRC64, &FA, plain, 300, cb, &cp, sizeof cb);
-		if (!chk(r, LZMA_OK, LZMA_OK, "lzma_stream_buffer_encode")) { uint64_t ml = UINT64_MAX; r = lzma_stream_buffer_decode(&ml, 0, &FA, cb, &ip, cp, db, &dp, sizeof db); if (!chk(r, LZMA_OK, LZMA_OK, "lzma_stream_buffer_decode") && (dp != 300 || memcmp(db, plain, 300))) MISBEHAVE("stream buffer round trip wrong"); }
-		cp = ip = dp = 0; lzma_block bl = { .version = 0, .check = LZMA_CHECK_CRC32, .filters = ch_three };
-		r = lzma_block_buffer_encode(&bl, &FA, plain, 300, cb, &cp, sizeof cb);
-		if (!chk(r, LZMA_OK, LZMA_OK, "lzma_block_buffer_encode")) { ip = bl.header_size; r = lzma_block_buffer_decode(&bl, &FA, cb, &ip, cp, db, &dp, sizeof db); if (!chk(r, LZMA_OK, LZMA_OK, "lzma_block_buffer_decode") && (dp != 300 || memcmp(db, plain, 300))) MISBEHAVE("block buffer round trip wrong"); }
-		cp = 0; r = lzma_easy_buffer_encode(1, LZMA_CHECK_SHA256, &FA, plain, 300, cb, &cp, sizeof cb); (void)chk(r, LZMA_OK, LZMA_OK, "lzma_easy_buffer_encode");
+	} else if (variant == 7) {	// single-call buffer functions: nothing may stay allocated, whatever fails; the caller's positions move only on success (api: "*out_pos is updated only if encoding succeeds")
+		static unsigned char cb[4096], db[512]; size_t cp = 7, ip = 7, dp = 3; lzma_ret r;
+#define POS_KEPT(what, failed, ...) do { if (failed) { size_t now_[] = { __VA_ARGS__ }; for (size_t q_ = 0; q_ < sizeof now_ / sizeof now_[0]; q_ += 2) if (now_[q_] != now_[q_ + 1]) MISBEHAVE("%s failed (%d) but moved a position from %zu to %zu", what, (int)r, now_[q_ + 1], now_[q_]); } } while (0)
+		r = lzma_raw_buffer_encode(ch_three, &FA, plain, 300, cb, &cp, sizeof cb); POS_KEPT("lzma_raw_buffer_encode", r != LZMA_OK, cp, (size_t)7);
+		if (!chk(r, LZMA_OK, LZMA_OK, "lzma_raw_buffer_encode")) { r = lzma_raw_buffer_decode(ch_three, &FA, cb, &ip, cp, db, &dp, sizeof db); POS_KEPT("lzma_raw_buffer_decode", r != LZMA_OK, ip, (size_t)7, dp, (size_t)3); if (!chk(r, LZMA_OK, LZMA_OK, "lzma_raw_buffer_decode") && (dp != 303 || memcmp(db + 3, plain, 300))) MISBEHAVE("raw buffer round trip wrong"); }
+		cp = ip = 7; dp = 3; r = lzma_stream_buffer_encode(ch_three, LZMA_CHECK_CRC64, &FA, plain, 300, cb, &cp, sizeof cb); POS_KEPT("lzma_stream_buffer_encode", r != LZMA_OK, cp, (size_t)7);
+		if (!chk(r, LZMA_OK, LZMA_OK, "lzma_stream_buffer_encode")) { uint64_t ml = UINT64_MAX; r = lzma_stream_buffer_decode(&ml, 0, &FA, cb, &ip, cp, db, &dp, sizeof db); POS_KEPT("lzma_stream_buffer_decode", r != LZMA_OK, ip, (size_t)7, dp, (size_t)3); if (!chk(r, LZMA_OK, LZMA_OK, "lzma_stream_buffer_decode") && (dp != 303 || memcmp(db + 3, plain, 300))) MISBEHAVE("stream buffer round trip wrong"); }
+		cp = ip = 7; dp = 3; lzma_block bl = { .version = 0, .check = LZMA_CHECK_CRC32, .filters = ch_three };
+		r = lzma_block_buffer_encode(&bl, &FA, plain, 300, cb, &cp, sizeof cb); POS_KEPT("lzma_block_buffer_encode", r != LZMA_OK, cp, (size_t)7);
+		if (!chk(r, LZMA_OK, LZMA_OK, "lzma_block_buffer_encode")) { ip = 7 + bl.header_size; size_t ip0 = ip; r = lzma_block_buffer_decode(&bl, &FA, cb, &ip, cp, db, &dp, sizeof db); POS_KEPT("lzma_block_buffer_decode", r != LZMA_OK, ip, ip0, dp, (size_t)3); if (!chk(r, LZMA_OK, LZMA_OK, "lzma_block_buffer_decode") && (dp != 303 || memcmp(db + 3, plain, 300))) MISBEHAVE("block buffer round trip wrong"); }
+		cp = 7; r = lzma_easy_buffer_encode(1, LZMA_CHECK_SHA256, &FA, plain, 300, cb, &cp, sizeof cb); POS_KEPT("lzma_easy_buffer_encode", r != LZMA_OK, cp, (size_t)7); (void)chk(r, LZMA_OK, LZMA_OK, "lzma_easy_buffer_encode");
+		cp = 7; { lzma_block bu = { .version = 0, .check = LZMA_CHECK_CRC32, .filters = ch_three }; r = lzma_block_uncomp_encode(&bu, plain, 300, cb, &cp, sizeof cb); if (r != LZMA_OK) MISBEHAVE("lzma_block_uncomp_encode (no allocator) returned %d", r); }
 	} else {	// lzma_filters_update: mid-stream after SYNC_FLUSH (raw/stream encoder) and between Blocks
 		lzma_stream s = LZMA_STREAM_INIT; s.allocator = &FA; lzma_options_lzma o2 = o_small; o2.lc = 0; o2.lp = 2; lzma_filter up[2] = { { LZMA_FILTER_LZMA2, &o2 }, { LZMA_VLI_UNKNOWN, NULL } };
 		lzma_options_lzma snap = o2;
